@@ -562,15 +562,17 @@ fn api_compat1(args: &[String]) {
     use std::str::FromStr;
     let doc = unhex(&args[0]);
     let Ok(v) = AutosarVersion::from_str(&args[1]) else { println!("{{\"outcome\":\"unknown-check\"}}"); return };
-    let m = AutosarModel::new();
-    let (file, _) = match m.load_buffer(&doc, "f.arxml", true) { Ok(x) => x, Err(e) => { println!("{{\"outcome\":\"ok\",\"note\":\"document does not load: {}\"}}", e); return } };
+    let mut m = AutosarModel::new();
+    let mut loaded = m.load_buffer(&doc, "f.arxml", true);
+    if loaded.is_err() { m = AutosarModel::new(); loaded = m.load_buffer(&doc, "f.arxml", false); }
+    let (file, _) = match loaded { Ok(x) => x, Err(e) => { println!("{{\"outcome\":\"ok\",\"note\":\"document does not load: {}\"}}", e); return } };
     let v0 = file.version();
     let text = String::from_utf8_lossy(&doc).to_string();
     let relabelled = text.replace(v0.filename(), v.filename());
     let strict = AutosarModel::new().load_buffer(relabelled.as_bytes(), "g.arxml", true);
     let strict_ok = matches!(&strict, Ok((_, w)) if w.is_empty());
     let (errs, mask) = file.check_version_compatibility(v);
-    let sv = { let m2 = AutosarModel::new(); let (f2, _) = m2.load_buffer(&doc, "h.arxml", true).unwrap(); f2.set_version(v).is_ok() };
+    let sv = { let m2 = AutosarModel::new(); match m2.load_buffer(&doc, "h.arxml", false) { Ok((f2, _)) => f2.set_version(v).is_ok(), Err(_) => false } };
     let msg = format!("target {:?}: check_version_compatibility lists {} incompatibilities, mask {:#x} ({} the target), set_version {}; relabelled file strict validation: {}",
         v, errs.len(), mask, if v.compatible(mask) { "contains" } else { "lacks" }, if sv { "succeeds" } else { "fails" },
         match &strict { Ok(_) => "passes".to_string(), Err(e) => format!("fails ({})", e) });
